@@ -104,7 +104,7 @@ CHECKS = {
     "C14": dict(level="fault_enumeration", exhaustive_note="every fault position k of each generated (state, operation) pair", parts=[
         dict(prop="REG", harness="api_pbt", quick=dict(count=0, workers=1), thorough=dict(count=0, workers=1)),  # regression scenarios
         dict(prop="C14", harness="api_pbt", quick=dict(count=2400, workers=8), thorough=dict(count=80000, workers=16),
-             essential=_ALL_SCHEMAS + ["W>=2", "k>=2"] + [f + m for f in ("1.x:", "2.x:") for m in
+             essential=_ALL_SCHEMAS + ["W>=2", "k>=2", "read-fault"] + [f + m for f in ("1.x:", "2.x:") for m in
                  ["create_track", "update", "remove_track"] + ["set_" + x for x in _SETTERS] +
                  ["create_root_crate", "create_sub_crate", "create_root_crate_after", "create_sub_crate_after", "set_name", "set_parent",
                   "add_track(track)", "add_track(id)", "crate::remove_track", "clear_tracks", "remove_crate"]]),
@@ -285,7 +285,9 @@ RULES = {
            "tracks with performance data, crates A > C and B, three memberships, plus 0..4 generated operations) x EVERY fault position: a dry "
            "run counts the W non-read-only statements (plus COMMIT) the operation steps through the sqlite3_step shim; for each k in 1..W the "
            "state is rebuilt, the k-th such statement returns SQLITE_IOERR without executing, and the call must throw, Obs (canonical public-"
-           "API dump) must equal Obs before the call, no transaction may stay open, and the same operation must then succeed. Non-trivial = "
+           "API dump) must equal Obs before the call, no transaction may stay open, and the same operation must then succeed. Second fault class, same "
+           "oracle: every step of a statement the call only reads with (each SELECT row fetch, BEGIN, PRAGMA; ROLLBACK excepted; first 40 positions), "
+           "counted only while the harness is inside the library call, so that a read failing after the call has already written is covered too. Non-trivial = "
            "operations with W >= 2; distinct = distinct (schema, state, operation, arguments). Table part: the same loop over the 13 mutating calls "
            "of the 2.x table API (playlist add / update / moving update / remove, entity add_back / remove / clear, track add / update / remove / "
            "set_<column>, change_log add, played indicator) on a generated state of 1-3 full track rows and 2-5 nested playlists with entries; "
